@@ -70,6 +70,9 @@ func (f *fnTrans) call(ins ssa.Instruction, c *ssa.CallCommon, res *ssa.Call) {
 			}
 		}
 	}
+	if ct != nil && len(ct.ParamSpec) > 0 && callee != nil {
+		f.checkParamContracts(ins, name, ct, callee, c)
+	}
 	rts := f.applyCall(ins, name, ct, calleeSig, c.IsInvoke(), args, argT, closureBind, impls, f.callMods(c), !inPkg && ct == nil)
 	if res != nil {
 		switch len(rts) {
@@ -178,12 +181,13 @@ func (f *fnTrans) applyCall(ins ssa.Instruction, name string, ct *Contract, sig 
 			}
 			props := cl.Props
 			if len(props) == 0 {
-				props = f.allProps
+				// untagged preconditions (mostly of library functions) are safety obligations of the caller
+				props = f.safetyProps
 			}
 			g := And(f.here(), cs.guard)
 			o := f.oblige("pre", fmt.Sprintf("precondition of %s: %s", cs.name, cl.Src), ins.Pos(), props, g, t)
 			o.Name = fmt.Sprintf("%s/call:%s#%d/pre%d", f.name, cs.name, ord, i)
-			f.fact(g, t)
+			f.factOb(g, t)
 		}
 	}
 	// havoc
@@ -214,6 +218,26 @@ func (f *fnTrans) applyCall(ins ssa.Instruction, name string, ct *Contract, sig 
 				before = Sym(h+"@0", f.w.heapSort[h])
 			}
 			f.fact(And(f.here(), cs.guard), f.frameFormula(h, fs.locs[h], before, f.heap(h), preTop))
+		}
+	}
+	// schema frames: callee promises not to touch protected heaps of pre-existing objects
+	for _, cs := range cases {
+		if cs.ct == nil || len(cs.ct.Protect) == 0 {
+			continue
+		}
+		inMods := map[string]bool{}
+		for _, h := range mods {
+			inMods[h] = true
+		}
+		for _, h := range cs.ct.Protect {
+			if !inMods[h] {
+				continue
+			}
+			before, ok := pre.h[h]
+			if !ok {
+				before = Sym(h+"@0", f.w.heapSort[h])
+			}
+			f.fact(And(f.here(), cs.guard), f.frameFormula(h, nil, before, f.heap(h), preTop))
 		}
 	}
 	// results
@@ -573,5 +597,63 @@ func (f *fnTrans) copyBuiltin(c *ssa.CallCommon, res *ssa.Call) {
 	}
 	if res != nil {
 		f.vals[res] = n
+	}
+}
+
+// checkParamContracts: a function value passed for a parameter that carries a
+// parameter contract must itself be under a contract containing the same clauses
+// (syntactic subsumption; the function's own obligations prove them).
+func (f *fnTrans) checkParamContracts(ins ssa.Instruction, name string, ct *Contract, callee *ssa.Function, c *ssa.CallCommon) {
+	for i, p := range callee.Params {
+		pc := ct.ParamSpec[p.Name()]
+		if pc == nil || i >= len(c.Args) {
+			continue
+		}
+		arg := c.Args[i]
+		for {
+			if ctp, ok := arg.(*ssa.ChangeType); ok {
+				arg = ctp.X
+				continue
+			}
+			break
+		}
+		var fn *ssa.Function
+		switch a := arg.(type) {
+		case *ssa.MakeClosure:
+			fn = a.Fn.(*ssa.Function)
+		case *ssa.Function:
+			fn = a
+		case *ssa.Parameter:
+			// forwarded parameter: the caller's own parameter contract must have the clauses
+			if mine := f.paramContract(a); mine != nil {
+				f.paramSubsumes(ins, name, p.Name(), pc, mine, "parameter "+a.Name())
+				continue
+			}
+		}
+		if fn == nil {
+			for _, cl := range pc.Ensures {
+				o := f.oblige("paramspec", fmt.Sprintf("argument %s of %s must satisfy: %s (unknown function value)", p.Name(), name, cl.Src), ins.Pos(), cl.Props, f.here(), False)
+				o.Name = fmt.Sprintf("%s/call:%s#%d/param:%s", f.name, name, f.callOrdinal(ins, name), p.Name())
+			}
+			continue
+		}
+		fct := f.w.Spec.Contracts[f.w.FnName(fn)]
+		if fct == nil {
+			fct = &Contract{}
+		}
+		f.paramSubsumes(ins, name, p.Name(), pc, fct, f.w.FnName(fn))
+	}
+}
+
+func (f *fnTrans) paramSubsumes(ins ssa.Instruction, name, pname string, want, have *Contract, who string) {
+	for k, cl := range want.Ensures {
+		found := false
+		for _, h := range have.Ensures {
+			if strings.Join(strings.Fields(h.Src), " ") == strings.Join(strings.Fields(cl.Src), " ") {
+				found = true
+			}
+		}
+		o := f.oblige("paramspec", fmt.Sprintf("%s passed as %s of %s has the contract clause: %s", who, pname, name, cl.Src), ins.Pos(), cl.Props, f.here(), BoolLit(found))
+		o.Name = fmt.Sprintf("%s/call:%s#%d/param:%s/ens%d", f.name, name, f.callOrdinal(ins, name), pname, k)
 	}
 }
